@@ -65,8 +65,10 @@ class Mon(episodes.Monitor):
             if not zero:
                 trunc_ok = False
                 if self.b.name == "LevelBasedForaging":
+                    # truncation = the time limit cuts an *unfinished* episode; once all food is eaten the episode
+                    # is over for good (the env's own comment: "terminate truncate -> termination")
                     tl = int(self.b.env.time_limit)
-                    trunc_ok = int(st_.step_count) >= tl
+                    trunc_ok = int(st_.step_count) >= tl and not bool(np.asarray(st_.food_items.eaten).all())
                 if not trunc_ok:
                     rec.fail(f"step.last_nonzero_discount.{phase}", "LAST timestep with non-zero discount",
                              f"discount={d.tolist()}")
@@ -82,12 +84,82 @@ def _per_episode(ctx, b, rec, summ, mon):
         ctx.count(f"last_{b.name}")
 
 
+# Coincidence cases: a constructive episode (the model's solver) is first played under a generous time limit; if it
+# ends by completion on step k, the same key and actions are replayed in the same configuration with time_limit = k, so
+# that "the game is over" and "the time limit is reached" hold on one and the same step.
+COINCIDE = {
+    "LevelBasedForaging": ["g6a2f2v2l2cVNp0t100", "g5a3f1v5l2nVNp0t40"], "Sokoban": ["simplet120"],
+    "RubiksCube": ["n2s1t3", "n3s1t3"], "SlidingTilePuzzle": ["g2m1t3s", "g3m50t7d"], "Maze": ["r5c5t7", "r4c7tNone"],
+    "Connector": ["g5a2t7rw"], "MMST": ["n12e18a2k3t7"], "Snake": ["r2c2t4000", "r2c3t40"], "Cleaner": ["r3c3a2tNone"],
+}
+BIG_T = 150
+
+
 def work_items(tier, flt):
-    return histprop.work_items(envs.ENV_NAMES, tier, flt, 40, 300,
-                               cost={"BinPack": 4, "PacMan": 3, "MMST": 3, "RubiksCube": 2, "Connector": 2})
+    items = histprop.work_items(envs.ENV_NAMES, tier, flt, 40, 300,
+                                cost={"BinPack": 4, "PacMan": 3, "MMST": 3, "RubiksCube": 2, "Connector": 2})
+    scale = (flt or {}).get("scale", 1.0)
+    for env in envs.select_envs(list(COINCIDE), flt):
+        es = COINCIDE[env][:1] if tier == "quick" else COINCIDE[env]
+        if flt and flt.get("entry"):
+            es = [e for e in COINCIDE[env] if e in flt["entry"]]
+        for e in es:
+            items.append({"env": env, "entry": e, "kind": "coincide", "n": max(2, int((8 if tier == "quick" else 40) * scale)),
+                          "cost": 3})
+    return items
+
+
+def run_coincide(item, seed):
+    from vf import hyp
+    from vf.runner import Ctx
+
+    ctx = Ctx(PROPERTY, item)
+    env, entry = item["env"], item["entry"]
+    with ctx.guard(env, {"env": env, "entry": entry, "stage": "construct"}):
+        big = envs.bundle(env, entry, time_limit=BIG_T)
+        solve_fn = episodes.solve_fn_for(big)
+        seen_k = set()
+
+        def one(key, plan):
+            # 1. constructive episode under the generous limit
+            st_, ts = big.reset(envs.make_key(key))
+            acts, k = [], None
+            for i in range(60):
+                mode, r = plan["steps"][i % len(plan["steps"])]
+                a = episodes.solved_action(big, solve_fn, episodes.host(st_), r) if mode == "solve" else None
+                if a is None:
+                    a = big.pick_action(st_, ts, "legal" if mode == "solve" else mode, r)
+                acts.append(np.asarray(a))
+                st_, ts = big.step(st_, a)
+                if int(ts.step_type) == episodes.LAST:
+                    k = i + 1
+                    break
+            ctx.count("coincide_attempts")
+            if k is None or k >= BIG_T or (len(seen_k) >= 6 and k not in seen_k):
+                ctx.count("coincide_no_completion" if k is None else "coincide_skipped")
+                return
+            seen_k.add(k)
+            # 2. the same key and actions with time_limit = k: both reasons coincide on step k
+            b = envs.bundle(env, entry, time_limit=k)
+            rec = episodes.Recorder(ctx, b, key)
+            mon = Mon(b, ctx, None)
+            with ctx.guard(env, rec.case(), size=10**6):
+                episodes.run_actions(b, rec, acts + acts[-1:] * 2, mon)
+            ctx.count("coincide_cases")
+            ctx.nontrivial(env, entry, "coincide", list(key), k)
+            if len(ctx.samples) < 2:
+                ctx.sample({"env": env, "entry": entry, "key": list(key), "completion_step_and_time_limit": k,
+                            "actions": [a.tolist() for a in acts[:12]]})
+
+        hyp.drive({"key": episodes.keys(),
+                   "plan": episodes.plans(max_len=30, min_len=6, styles=("solve", "solveish", "solve", "legal"))},
+                  one, seed, item["n"])
+    return ctx.result()
 
 
 def run_item(item, seed, tier):
+    if item.get("kind") == "coincide":
+        return run_coincide(item, seed)
     return histprop.run_item(PROPERTY, item, seed, Mon, max_len=70, after_last=4, per_episode=_per_episode)
 
 
